@@ -108,6 +108,48 @@ def check(ctx, x, xvals, kname, k, case, is_array, elementwise_k=None):
             ctx.violation("value:%s:%s:%s" % (key_cls, label, kname.split("[")[0]), dict(c, got=got_vals[:6], want=[float(w) for w in want_vals[:6]], x=repr(x)[:120]), replay=c)
 
 
+def exponent_families(ctx, r, n_families):
+    """One process, quantities that differ *only in one exponent* (u/v, u/v2, u/v3, 1/v, 1/v2, u2/v ...), every
+    number form applied to each in turn and again in reverse order: whatever a previous operand left behind
+    (a memo, an interned result) must not leak into the next one."""
+    from barril.units import Array, Scalar
+
+    pairs = [("m", "s"), ("kg", "m"), ("s", "kg"), ("ft", "min"), ("mol", "L"), ("A", "s"), ("K", "m"), ("cm", "h")]
+    for _ in range(n_families):
+        u, v = r.choice(pairs)
+        fam = []
+        for eu in (0, 1, 2):
+            for ev in (-3, -2, -1, 1, 2):
+                def build(cls):
+                    one = (lambda x, un: Scalar(x, un)) if cls == "scalar" else (lambda x, un: Array([x, 2 * x], un))
+                    acc = None
+                    for _i in range(eu):
+                        acc = one(2.0, u) if acc is None else acc * one(2.0, u)
+                    for _i in range(abs(ev)):
+                        f = one(4.0, v)
+                        if ev > 0:
+                            acc = f if acc is None else acc * f
+                        else:
+                            acc = (1.0 / f) if acc is None else acc / f
+                    return acc
+                fam.append((eu, ev, build))
+        order = list(range(len(fam)))
+        r.shuffle(order)
+        for cls in ("scalar", "array"):
+            for idxs in (order, order[::-1]):
+                for i in idxs:
+                    eu, ev, build = fam[i]
+                    try:
+                        x = build(cls)
+                    except Exception:
+                        continue
+                    xvals = [x.GetValue()] if cls == "scalar" else list(x.GetValues())
+                    case = {"x": repr(x)[:120], "class": cls, "family": [u, eu, v, ev]}
+                    ctx.nt(("family", cls, u, eu, v, ev))
+                    for kname, k in (("int", 3), ("float", 0.5), ("np.float64", __import__("numpy").float64(2.0))):
+                        check(ctx, x, xvals, kname, k, case, cls != "scalar")
+
+
 def run(ctx):
     import numpy as np
     from barril.units import Array, FixedArray, Quantity, Scalar
@@ -118,7 +160,7 @@ def run(ctx):
         "x in {Scalar, Array, FixedArray} x {simple, derived (random trees), empty quantity} x {list, tuple, ndarray, lengths 0..4} ; "
         "k in {int, float, bool, np.float64, np.float32, np.int64, np.int32, negative, 0, 0.0, numpy zeros, 1, -1, False} and for arrays float64/int64 ndarrays of x's length; "
         "all ten operator forms in both operand orders: result is an instance of x's class, quantity = x's (reciprocal dimension for k/x, k//x), "
-        "values == the Python/numpy operation applied to the stored value(s) exactly. distinct non-trivial = (class, container, length, quantity kind, k kind)"
+        "values == the Python/numpy operation applied to the stored value(s) exactly; + families of quantities differing only in one exponent, visited in one process in both orders. distinct non-trivial = (class, container, length, quantity kind, k kind)"
     )
     ctx.assumptions = ["an ndarray operand for a Scalar is ill-typed and excluded", "complex numbers are not examined"]
     r = ctx.rng("c09")
@@ -171,5 +213,6 @@ def run(ctx):
                             check(ctx, x, xvals, kname, k, case, True, elementwise_k=list(k))
             if i < 2 and ctx.shard == 0:
                 ctx.sample({"x": programs.render(spec), "quantity_kind": qkind, "length": n})
+        exponent_families(ctx, ctx.rng("families"), 12 if ctx.tier == "quick" else 150)
     ctx.inconclusive_if(probe.COUNTS["Array.__rmul__"] == 0, "Array operators never reached")
     ctx.inconclusive_if(probe.COUNTS["Scalar.__rtruediv__"] == 0 or probe.COUNTS["Array.__rsub__"] == 0, "reflected operators never reached")
